@@ -272,9 +272,11 @@ fn take_next_token(text: &str) -> Option<(usize, AstKind)> {
                 .take_while(|b| b.is_ascii_digit())
                 .count();
             if len < text.len() && text.as_bytes()[len] == b'.' {
+                // the digits after the '.'
                 let decimal_len = text
                     .as_bytes()
                     .iter()
+                    .skip(len + 1)
                     .take_while(|b| b.is_ascii_digit())
                     .count();
                 return Some((len + decimal_len + 1, AstKind::Float));
